@@ -5,6 +5,7 @@ package server
 import (
 	"bytes"
 	"context"
+	"encoding/hex"
 	"errors"
 	"fmt"
 	"io"
@@ -334,6 +335,17 @@ func TestVerifC35Server(t *testing.T) {
 	}()
 	starts := 0
 	n := r.N(40, 400)
+	var replayText, replayTransport string
+	if rp := verifkit.Replay(); rp != nil && rp["leg"] == "server" {
+		// bin/check --replay <witness>: only the witness is sent (the floor does not apply)
+		if w, ok := rp["replay"].(map[string]any); ok {
+			if h, ok := w["query_hex"].(string); ok {
+				if b, err := hex.DecodeString(h); err == nil {
+					replayText, replayTransport, n = string(b), fmt.Sprint(w["transport"]), 2
+				}
+			}
+		}
+	}
 	for ci := 0; ci < n; ci++ {
 		rng := r.Rand(ci)
 		var text, kind string
@@ -349,6 +361,12 @@ func TestVerifC35Server(t *testing.T) {
 			text, kind = gen.Gen(rng).WithRunes(rng, rs).Text, "hostile"
 		}
 		transport := []string{"simple", "extended"}[ci%2]
+		if replayTransport != "" {
+			text, kind, transport = replayText, "hostile", replayTransport
+			if ci == 1 { // second case: the same text over the other transport
+				transport = map[string]string{"simple": "extended", "extended": "simple"}[replayTransport]
+			}
+		}
 		if child == nil {
 			c, err := c35StartChild(dir, starts)
 			starts++
@@ -445,7 +463,9 @@ func TestVerifC35Server(t *testing.T) {
 		}
 	}
 	r.Count("server_children_started", int64(starts))
-	r.Floor("queries_hostile", int64(n/2))
+	if replayTransport == "" {
+		r.Floor("queries_hostile", int64(n/2))
+	}
 }
 
 func c35sClip(s string) string {
